@@ -531,7 +531,10 @@ pub fn signals() -> E2eResult {
                 drop(client.take());
                 obs(&mut o, &format!("{name}: the process exits after the connection finished"), true, exited_within(&mut child, POS));
             } else {
-                obs(&mut o, &format!("{name} (connection in progress: {held}): the process exits without waiting"), true, exited_within(&mut child, Duration::from_secs(5)));
+                // the child's shutdown_timeout is 3 s: a forced stop is well below that, a graceful one with a held
+                // connection is not (the latter is the other branch)
+                let limit = if held { Duration::from_millis(1800) } else { Duration::from_secs(5) };
+                obs(&mut o, &format!("{name} (connection in progress: {held}): the process exits without waiting"), true, exited_within(&mut child, limit));
                 let _ = t0;
             }
             let _ = child.kill();
